@@ -342,7 +342,7 @@ def main(tier):
     plans = []
     if tier == 'quick':
         quick_full = [o for o in ops_full()
-                      if o[3] != 'BA' and o[2] != 'dup']
+                      if o[3] != 'BA' and o[2] != 'dup' and o[4] != 0]
         plans = [('slash', quick_full, 2), ('noslash', ops_reduced(), 2),
                  ('et', ops_reduced(), 2), ('slash', ops_small(), 3)]
     else:
@@ -391,7 +391,8 @@ def replay(rec):
     nops = int(label.split('ops=')[1].split('/')[0])
     ops = {len(o): o for o in (ops_full(), ops_reduced(), ops_small(),
                                [o for o in ops_full()
-                                if o[3] != 'BA' and o[2] != 'dup'])
+                                if o[3] != 'BA' and o[2] != 'dup'
+                                and o[4] != 0])
            }[nops]
     v = explorer.replay_history(factory, ops, c['history_idx'])
     return 1 if v else 0
